@@ -82,6 +82,12 @@ def _url_helper(ctx, rule, name, ref, rets, site, final_call, n):
                 t1 = F.simplify(parg, {"infer_redirection": False})
                 ctx.ob(rule, "%s/cleaning/%s" % (name, role), not F.unguarded_paths(t1, leaf, pred),
                        "%s parses the url without the %s that normalize_url applies: the two disagree on %r" % (name, role, w), site, witness=w)
+            t1 = F.simplify(parg, {"infer_redirection": False})
+            strips = F.find_nodes(t1, STRIP, data_only=True)
+            order_ok = bool(strips) and all(not F.unguarded_paths(s_[2], leaf, CTRL) for s_ in strips if F.find_nodes(s_, leaf))
+            ctx.ob(rule, name + "/cleaning/ctrl-before-strip", order_ok,
+                   "%s strips whitespace before removing control characters (normalize_url does the opposite): '\\x00 http://www.lemonde.fr/a' keeps a leading space and the protocol is read as the host" % name,
+                   site, witness="\x00 http://www.lemonde.fr/a")
             ens = F.find_nodes(parg, lambda x: x[0] in ("inl", "call") and x[1] == "ural.ensure_protocol.ensure_protocol")
             ctx.ob(rule, name + "/ensure-protocol", bool(ens), "%s parses the url without ensuring a protocol" % name, site, witness="example.com/x")
             t2 = F.simplify(parg, {"infer_redirection": True})
@@ -213,14 +219,4 @@ def get_hostname(ctx, rule):
     ctx.ob(rule, "get_hostname/is-parser-hostname", ok, "get_hostname is not safe_urlsplit(url).hostname", site)
     ctx.ob(rule, "get_hostname/ValueError-None", bool(exc) and all(r.term == ("const", None) for r in exc), "get_hostname does not map ValueError to None", site, witness="http://[::1/x")
     # safe_urlsplit: adds a scheme iff PROTOCOL_RE does not match
-    ut = repo.mod("utils")
-    sref = ut.func("safe_urlsplit")
-    ctx.fn(sref.qualname)
-    ex = P.Extractor(repo, atomic=set())
-    srets = [r for r in ex.function(sref) if r.kind == "return"]
-    parses = [r for r in srets if U.is_parse(r.term)]
-    ctx.ob(rule, "safe_urlsplit/parses", len(parses) >= 1, "safe_urlsplit does not end in the standard parser", ut.site(sref.node))
-    for r in parses:
-        arg = r.term[2][0]
-        ok = arg[0] == "phi" and any(y[0] in ("call", "method") and ("PROTOCOL_RE" in str(y)) for y in P.subterms(arg[1]))
-        ctx.ob(rule, "safe_urlsplit/scheme-ensured-by-PROTOCOL_RE", ok, "safe_urlsplit does not decide on PROTOCOL_RE whether to prepend a scheme", ut.site(sref.node), witness="example.com")
+    U.rule_safe_urlsplit(ctx, rule)
